@@ -13,3 +13,6 @@ subprocess.run(["python3", os.path.join(vlib.VERIF, "tools", "gen_rolling_table.
 
 import gen_selftest
 gen_selftest.main(["--quiet"])
+
+import check
+check.wrap_generate()
